@@ -45,6 +45,15 @@ def gen_case(rng, tier):
             col = [f"id{(i * 7 + len(f)) % max(20, n // 2)}" for i in range(n)]
             X[f] = encs(col)
             continue
+        if t == "quant" and rng.random() < 0.22:
+            # int64 identifiers above 2**53 (exact as integers, not as float64): their quantile boundaries must
+            # not depend on the dtype of the co-fitted columns
+            types[f] = "quant_int"
+            base_ = rng.choice([10 ** 17, 2 ** 60, 9007199254740993])
+            k = rng.choice([5, 9, 40])
+            col = [int(base_ + 3 * ((rng.randrange(k) + (y[i] % 2 if rng.random() < 0.5 else 0)) % k) + 1) for i in range(n)]
+            X[f] = encs(col)
+            continue
         if t == "quant" and rng.random() < 0.35:
             # date-like numbers: different features share their 4-significant-digit renderings
             types[f] = "quant"
@@ -108,10 +117,13 @@ def configs(case):
         cfgs.append({"name": f"alone:{f}", "features": [f], "columns": names, "hashseed": 0, "n_jobs": 1})
     for k in range(2):
         cfgs.append({"name": f"stub{k}", "features": names, "columns": names, "hashseed": k, "n_jobs": 3,
-                     "stub_seed": case["seed"] + k})
+                     "stub_seed": case["seed"] + k, "index": [None, "shuffled"][k]})
     if case["real_pools"]:
-        cfgs.append({"name": "n_jobs2", "features": names, "columns": names, "hashseed": 0, "n_jobs": 2})
+        cfgs.append({"name": "n_jobs2", "features": names, "columns": names, "hashseed": 0, "n_jobs": 2,
+                     "index": "strings"})
         cfgs.append({"name": "n_jobs4", "features": names, "columns": names, "hashseed": 5, "n_jobs": 4})
+    cfgs.append({"name": "sequential_shuffled_index", "features": names, "columns": names, "hashseed": 2, "n_jobs": 1,
+                 "index": "shuffled"})
     return cfgs
 
 
